@@ -30,6 +30,9 @@ type sockOp struct {
 type sockArgs struct {
 	Ops      []sockOp `json:"ops"`
 	Shutdown bool     `json:"shutdown"` // end with Shutdown instead of closing what is still open
+	// how the accepting side ends a connection once it has read end-of-stream: "both" (Close + CloseConnection) or
+	// "close" (Close only, as the control service does with its connections)
+	ServerClose string `json:"server_close"`
 }
 
 func sockGoroutines() int {
@@ -129,7 +132,7 @@ func sockApply(op string, raw json.RawMessage) interface{} {
 			go func() {
 				_, _ = io.Copy(io.Discard, c)
 				_ = c.Close()
-				if cc, ok := c.(*Conn); ok {
+				if cc, ok := c.(*Conn); ok && a.ServerClose != "close" {
 					_ = cc.CloseConnection()
 				}
 			}()
@@ -232,6 +235,12 @@ func sockApply(op string, raw json.RawMessage) interface{} {
 			}
 			_, _ = c.Write([]byte("hello"))
 			conns = append(conns, c)
+		case "cancelread":
+			// the dialling side gives up reading (STOP_SENDING reaches the accepting side's stream)
+			if o.I < len(conns) && conns[o.I] != nil {
+				conns[o.I].CancelRead()
+				time.Sleep(5 * time.Millisecond)
+			}
 		case "connclose":
 			if o.I < len(conns) && conns[o.I] != nil {
 				c := conns[o.I]
@@ -369,7 +378,11 @@ func sockGen(v *verifRun) {
 				a.Ops = append(a.Ops, sockOp{K: "dial"})
 				nC++
 			case r < 18 && nC > 0:
-				a.Ops = append(a.Ops, sockOp{K: "connclose", I: v.rng.Intn(nC), How: []string{"close", "closeconn", "both"}[v.rng.Intn(3)]})
+				c := v.rng.Intn(nC)
+				if v.rng.Intn(3) == 0 {
+					a.Ops = append(a.Ops, sockOp{K: "cancelread", I: c})
+				}
+				a.Ops = append(a.Ops, sockOp{K: "connclose", I: c, How: []string{"close", "closeconn", "both"}[v.rng.Intn(3)]})
 			case r < 19:
 				a.Ops = append(a.Ops, sockOp{K: "ping", How: []string{"ok", "nosuch"}[v.rng.Intn(2)]})
 			default:
@@ -377,6 +390,7 @@ func sockGen(v *verifRun) {
 			}
 		}
 		a.Shutdown = v.rng.Intn(6) == 0
+		a.ServerClose = []string{"both", "close"}[v.rng.Intn(2)]
 		v.do(sockApply, "script", a)
 	}
 }
